@@ -3,7 +3,11 @@
    re-translated from the source on every run (Gen/Generated.v).  Spec side (raw sums, doc_fix_date, spec_timestamp, spec_chan_freq): the
    documented formulas.  See design.d/C17.md for the clause-by-clause map. *)
 From Coq Require Import ZArith QArith List Bool String.
-From KV Require Import Base.Sx Base.Str Gen.Generated Model.TimeFreq Proofs.TimeFreqP.
+From KV Require Import Base.Sx Base.Str Gen.Generated Model.Prune Model.LostMap Proofs.C06P
+                       Model.TimeFreq Proofs.TimeFreqP Model.TimeFreqPre Proofs.TimeFreqPreP
+                       Model.TimeFreqVfw Proofs.TimeFreqVfwP Model.TimeFreqX Proofs.TimeFreqXP
+                       Model.TimeFreqCbf Proofs.TimeFreqCbfP Proofs.TimeFreqC07P.
+From KV Require Model.Chunks.
 Import ListNotations.
 Open Scope Q_scope.
 
@@ -195,3 +199,262 @@ Theorem C17_preselect_rejects : forall keys steps,
   (forall s, In s steps -> s = None \/ s = Some 1%Z).
 Proof. exact preselect_rejects. Qed.
 Print Assumptions C17_preselect_rejects.
+
+(* ======================================================================================================== *)
+(* Extension: the paths from the public API to the core, vis / flags / weights, fallback, names, laws        *)
+(* ======================================================================================================== *)
+
+(* ---- clause 6 on every open path ---- *)
+(* TelstateDataSource (with or without a chunk store - the validation statements are the first of __init__, in this
+   order): accepted iff every key is channels / dumps and every value is a slice with step None or 1 *)
+Theorem C17_validation_accepts_iff : forall p,
+  ds_validate p = 0%Z <-> spec_keys_ok ["channels"; "dumps"]%string (the_dict p) /\ spec_vals_ok (the_dict p).
+Proof. exact ds_validate_accepts. Qed.
+Print Assumptions C17_validation_accepts_iff.
+
+(* which IndexError: unknown keys are reported first, whatever the values; nothing else can come out *)
+Theorem C17_validation_errors : forall p,
+  (ds_validate p = 1%Z <-> ~ spec_keys_ok ["channels"; "dumps"]%string (the_dict p)) /\
+  (ds_validate p = 2%Z <-> spec_keys_ok ["channels"; "dumps"]%string (the_dict p) /\ ~ spec_vals_ok (the_dict p)) /\
+  (ds_validate p = 0 \/ ds_validate p = 1 \/ ds_validate p = 2)%Z.
+Proof. exact ds_validate_errors. Qed.
+Print Assumptions C17_validation_errors.
+
+(* katdal.open: one RDB file validates like the data source; a list of files allows `channels` only (IndexError 4
+   for anything else, before any file is opened); other formats accept no preselect at all *)
+Theorem C17_validation_open_paths : forall p,
+  open_validate KRdb p = ds_validate p /\
+  (open_validate KRdbList p = 0%Z <-> spec_keys_ok ["channels"]%string (the_dict p) /\ spec_vals_ok (the_dict p)) /\
+  (open_validate KRdbList p = 4%Z <-> ~ spec_keys_ok ["channels"]%string (the_dict p)) /\
+  (open_validate KOther p = 0%Z <-> p = None).
+Proof. exact open_validate_paths. Qed.
+Print Assumptions C17_validation_open_paths.
+
+Theorem C17_validation_source_constants :
+  gen_ds_index_axes = ["dumps"; "channels"]%string /\ open_concat_keys = ["channels"]%string
+  /\ gen_ds_validate_prog = [0; 1; 2]%Z.
+Proof. exact axis_order_documented. Qed.
+Print Assumptions C17_validation_source_constants.
+
+(* ---- open-ended, negative and overshooting bounds ---- *)
+Theorem C17_slice_bounds : forall n v, (0 <= n)%Z ->
+  (0 <= fst (py_indices n v) <= n)%Z /\ (0 <= snd (py_indices n v) <= n)%Z.
+Proof. exact py_indices_bounds. Qed.
+Print Assumptions C17_slice_bounds.
+
+Theorem C17_slice_normalised_fixed : forall n a b st, (0 <= a)%Z -> (a <= b)%Z -> (b <= n)%Z ->
+  py_indices n (PSlice (Some a) (Some b) st) = (a, b) /\ py_indices n (PSlice None None st) = (0%Z, n).
+Proof. intros n a b st H0 H1 H2. split; [exact (py_indices_normalised n a b st H0 H1 H2)|reflexivity]. Qed.
+Print Assumptions C17_slice_normalised_fixed.
+
+(* the index handed to the chunk store: nothing without a preselection, otherwise (dumps, channels) with the whole axis
+   for an absent key; with non-empty ranges every window is normalised and non-empty (what the C06 model asks for) *)
+Theorem C17_chunk_store_index : forall T F p, (0 <= T)%Z -> (0 <= F)%Z ->
+  pre_index [T; F] [] = [] /\
+  (p <> [] -> pre_index [T; F] p =
+     [match plookup "dumps" p with Some v => Some (py_indices T v) | None => None end;
+      match plookup "channels" p with Some v => Some (py_indices F v) | None => None end]) /\
+  ((fst (axis_range T p "dumps") < snd (axis_range T p "dumps"))%Z ->
+   (fst (axis_range F p "channels") < snd (axis_range F p "channels"))%Z ->
+   forall k w, nth_error (pre_index [T; F] p) k = Some (Some w) ->
+     (0 <= fst w /\ fst w < snd w /\ snd w <= nth k [T; F] 0)%Z).
+Proof.
+  intros T F p HT HF. split; [reflexivity|]. split; [exact (pre_index_axes T F p)|].
+  exact (pre_index_windows_ok T F p HT HF).
+Qed.
+Print Assumptions C17_chunk_store_index.
+
+(* ---- clause 4: visibilities, flags, weights (over the chunk-store model of C06, imported unchanged) ---- *)
+(* ANY store (chunkings of the four arrays, absent chunks, stored values, phantom dumps), ANY preselect_index w with
+   non-empty windows, ANY element q of the preselected data set: vis / weights / flags are those of the data set
+   opened whole at the position shifted by the starts of the preselected ranges *)
+Theorem C17_preselect_vis_flags_weights : forall c w q, cfg_ok (with_win c w) q ->
+  cfg_ok (whole c) (gpos (with_win c w) q) /\
+  model_vis (with_win c w) q = model_vis (whole c) (gpos (with_win c w) q) /\
+  model_weights (with_win c w) q = model_weights (whole c) (gpos (with_win c w) q) /\
+  model_flags (with_win c w) q = model_flags (whole c) (gpos (with_win c w) q).
+Proof. exact preselect_vfw. Qed.
+Print Assumptions C17_preselect_vis_flags_weights.
+
+(* the shifted position: (i, j, k) -> (a + i, c + j, k) *)
+Theorem C17_preselect_position : forall c a b c0 d i j k,
+  gpos (with_win c [Some (a, b); Some (c0, d)]) [i; j; k] = [a + i; c0 + j; k]%Z /\
+  gpos (with_win c [Some (a, b); None]) [i; j; k] = [a + i; j; k]%Z /\
+  gpos (with_win c [None; Some (c0, d)]) [i; j; k] = [i; c0 + j; k]%Z.
+Proof. intros. repeat split; reflexivity. Qed.
+Print Assumptions C17_preselect_position.
+
+(* ---- the whole open: TelstateDataSource(preselect) + VisibilityDataV4(preselect) ---- *)
+(* accepted exactly when the dictionary is valid, a dump is left and (if channels are preselected) a channel is left *)
+Theorem C17_open_accepts_iff : forall s po, (0 <= x_N s)%Z ->
+  ((exists d, open_v4 s po = ODs d) <->
+   ds_validate po = 0%Z /\ (0 < take_len (axis_range (x_T s) (the_dict po) "dumps"))%Z /\
+   chan_range_ok (x_N s) (the_dict po)).
+Proof. exact open_v4_accepts. Qed.
+Print Assumptions C17_open_accepts_iff.
+
+Theorem C17_open_error_codes : forall s po c, open_v4 s po = OErr c ->
+  (c = ds_validate po /\ (c = 1 \/ c = 2)%Z) \/ (ds_validate po = 0%Z /\ (c = 5 \/ c = 6)%Z).
+Proof. exact open_v4_error_codes. Qed.
+Print Assumptions C17_open_error_codes.
+
+(* the three uses of one preselection agree: the timestamps keep dumps a.. (n of them), the chunk store gets the
+   index of the same ranges, and - metadata and data agreeing on the channel count - the spectral window has as many
+   channels as the data and the fallback does NOT fire *)
+Theorem C17_open_consistent : forall s po d, (0 <= x_N s)%Z -> x_F s = Some (x_N s) -> open_v4 s po = ODs d ->
+  o_a d = fst (axis_range (x_T s) (the_dict po) "dumps") /\
+  o_n d = take_len (axis_range (x_T s) (the_dict po) "dumps") /\ (0 < o_n d)%Z /\
+  o_index d = pre_index [x_T s; x_N s] (the_dict po) /\
+  o_fallback d = false /\ s_n (o_spw d) = data_chans (x_N s) (the_dict po).
+Proof.
+  intros s po d HN HF H. destruct (open_v4_shape s po d H) as (A & B & C & D).
+  destruct (open_v4_consistent s po d HN HF H) as (E & F & _). rewrite HF in D. repeat split; assumption.
+Qed.
+Print Assumptions C17_open_consistent.
+
+(* ... and its timestamps / frequencies are those of dumps a+i / channels c+j of the capture *)
+Theorem C17_open_preselect_equals_select : forall s po d, (0 < x_N s)%Z -> o_fallback d = false -> open_v4 s po = ODs d ->
+  (forall i, model_timestamp (x_tm s) (o_a d) i == spec_timestamp (x_tm s) (fst (axis_range (x_T s) (the_dict po) "dumps") + i)) /\
+  (forall j, chan_freq (o_spw d) j ==
+             x_centre s + inject_Z (fst (axis_range (x_N s) (the_dict po) "channels") + j - x_N s / 2) * x_bw s / inject_Z (x_N s)) /\
+  chan_width (o_spw d) == x_bw s / inject_Z (x_N s).
+Proof.
+  intros s po d HN FB H. destruct (open_v4_shape s po d H) as (A & _). split; [|split].
+  - intros i. rewrite preselect_timestamp, A. reflexivity.
+  - intros j. exact (proj1 (open_v4_freqs s po d HN FB H j)).
+  - exact (proj2 (open_v4_freqs s po d HN FB H 0%Z)).
+Qed.
+Print Assumptions C17_open_preselect_equals_select.
+
+(* the channel-count fallback: fires exactly when window and data disagree on the number of channels; then the window
+   has the data's count, the SAME channel width and sideband +1, and its centre frequency is 0 Hz *)
+Theorem C17_channel_count_fallback : forall s po d F, (0 < x_N s)%Z -> x_F s = Some F -> open_v4 s po = ODs d ->
+  (o_fallback d = true <->
+   data_chans F (the_dict po) <> take_len (axis_range (x_N s) (the_dict po) "channels")) /\
+  (o_fallback d = true ->
+   s_centre (o_spw d) == 0 /\ s_n (o_spw d) = data_chans F (the_dict po) /\ s_side (o_spw d) = 1%Z /\
+   ((0 < data_chans F (the_dict po))%Z -> chan_width (o_spw d) == x_bw s / inject_Z (x_N s)) /\
+   forall k, (0 < data_chans F (the_dict po))%Z ->
+     chan_freq (o_spw d) k == inject_Z (k - data_chans F (the_dict po) / 2) * (x_bw s / inject_Z (x_N s))).
+Proof. exact open_v4_fallback. Qed.
+Print Assumptions C17_channel_count_fallback.
+
+(* ---- clause 1 / 2 for timestamps handed to TelstateDataSource(timestamps=...) (any sequence g) ---- *)
+Theorem C17_given_timestamps : forall tm g a n i,
+  model_timestamp_g tm g a i == g (a + i)%Z + t_off tm - spec_fix_g tm g /\
+  model_start_g tm g a n == g a + t_off tm - spec_fix_g tm g - (1#2) * t_int tm /\
+  model_end_g tm g a n == g (a + n - 1)%Z + t_off tm - spec_fix_g tm g + (1#2) * t_int tm /\
+  model_offset_g tm g a == t_off tm - spec_fix_g tm g.
+Proof. exact given_timestamps. Qed.
+Print Assumptions C17_given_timestamps.
+
+(* the synthesised axis is the instance g = synth *)
+Theorem C17_given_timestamps_generalises : forall tm a i,
+  model_timestamp tm a i = model_timestamp_g tm (synth tm) a i /\ spec_fix_g tm (synth tm) == spec_fix_amount tm.
+Proof. intros tm a i. split; [exact (model_timestamp_synth tm a i)|exact (spec_fix_g_synth tm)]. Qed.
+Print Assumptions C17_given_timestamps_generalises.
+
+(* laws of the time axis: uniform spacing, duration, adjacent preselections tile the capture, default offset 0 *)
+Theorem C17_time_axis_laws : forall tm a n m i,
+  model_timestamp tm a (i + 1) - model_timestamp tm a i == t_int tm /\
+  model_end_time tm a n - model_start_time tm a n == inject_Z n * t_int tm /\
+  model_end_time tm a n == model_start_time tm (a + n) m /\
+  q_default_time_offset == 0 /\ q_open_default_time_offset == 0.
+Proof.
+  intros tm a n m i. split; [exact (timestamps_uniform tm a i)|]. split; [exact (duration tm a n)|].
+  split; [exact (preselections_tile tm a n m)|exact default_time_offsets].
+Qed.
+Print Assumptions C17_time_axis_laws.
+
+(* ---- SpectralWindow: constructor variants and names ---- *)
+Theorem C17_spw_constructor : forall k,
+  j_w (spw_new k) = spw_init (k_centre k, k_cw k, k_n k, match k_sideband k with Some s => s | None => (-1)%Z end, k_bandwidth k)
+  /\ j_product (spw_new k) = match k_product k with Some s => s | None => ""%string end
+  /\ j_band (spw_new k) = match k_band k with Some b => b | None => "L"%string end.
+Proof. exact spw_new_spec. Qed.
+Print Assumptions C17_spw_constructor.
+
+Theorem C17_v4_window_names :
+  gen_v4_product_attr = "sub_product"%string /\ gen_v4_product_default = ""%string /\ gen_v4_band_attr = "sub_band"%string
+  /\ gen_v4_band_map = [("l", "L"); ("s", "S"); ("u", "UHF"); ("x", "X")]%string.
+Proof. exact v4_names_documented. Qed.
+Print Assumptions C17_v4_window_names.
+
+(* whatever sequence of sub-ranges and re-channelisations is applied: product, band and sideband never change *)
+Theorem C17_history_keeps_names : forall ops o r, In (Some r) (obj_run o ops) ->
+  j_product r = j_product o /\ j_band r = j_band o /\ s_side (j_w r) = s_side (j_w o).
+Proof. exact history_keeps_names. Qed.
+Print Assumptions C17_history_keeps_names.
+
+(* ---- laws of windows (equality = SpectralWindow.__eq__ over exact numbers) ---- *)
+Theorem C17_subrange_compose : forall w f l w1 f2 l2 w2, subrange w f l = Some w1 -> subrange w1 f2 l2 = Some w2 ->
+  exists w3, subrange w (f + f2) (f + l2) = Some w3 /\ spw_eq w2 w3.
+Proof. exact subrange_compose. Qed.
+Print Assumptions C17_subrange_compose.
+
+Theorem C17_subrange_full_identity : forall w, (0 < s_n w)%Z -> exists w', subrange w 0 (s_n w) = Some w' /\ spw_eq w' w.
+Proof. exact subrange_full. Qed.
+Print Assumptions C17_subrange_full_identity.
+
+Theorem C17_rechannelise_compose : forall w m k, (0 < s_n w)%Z -> (0 < m)%Z -> (0 < k)%Z ->
+  spw_eq (rechannelise (rechannelise w m) k) (rechannelise w k) /\
+  spw_eq (rechannelise (rechannelise w m) (s_n w)) w.
+Proof. intros w m k Hn Hm Hk. split; [exact (rechannelise_compose w m k Hn Hm Hk)|exact (rechannelise_roundtrip w m Hn Hm)]. Qed.
+Print Assumptions C17_rechannelise_compose.
+
+Theorem C17_equal_windows_equal_channels : forall u w k, (s_n w <> 0)%Z -> spw_eq u w ->
+  chan_freq u k == chan_freq w k /\ chan_width u == chan_width w.
+Proof. exact spw_eq_freqs. Qed.
+Print Assumptions C17_equal_windows_equal_channels.
+
+(* ---- clause 1: where the correlator dump period comes from (visdatav4._cbf_attrs + the try / except of __init__) ---- *)
+(* the interpreted lookups of the source ARE the documented chain src_streams[0] -> <corr>_int_time, <corr>_n_accs,
+   <corr>_src_streams[0] -> <feng>_instrument_dev_name -> <instrument>_scale_factor_timestamp, for every attribute
+   dictionary on which that chain is well typed: complete -> the period; any link missing / an empty stream list -> lite *)
+Theorem C17_cbf_period_chain : forall a, spec_cbf a <> CRaises -> cbf_period a = spec_cbf a.
+Proof. exact cbf_period_spec. Qed.
+Print Assumptions C17_cbf_period_chain.
+
+Theorem C17_cbf_period_complete : forall a cs l p na fs l' inst sf,
+  aget "src_streams" a = Some (AList (cs :: l)) -> aget (cs ++ "_int_time") a = Some (ANum p) ->
+  aget (cs ++ "_n_accs") a = Some na -> aget (cs ++ "_src_streams") a = Some (AList (fs :: l')) ->
+  aget (fs ++ "_instrument_dev_name") a = Some (AStr inst) -> aget (inst ++ "_scale_factor_timestamp") a = Some sf ->
+  cbf_period a = CPeriod p /\ t_cbf_of a = Some p.
+Proof. exact cbf_full_chain. Qed.
+Print Assumptions C17_cbf_period_complete.
+
+(* a lite or partially stripped RDB: no period, so no correction whatever the capture date *)
+Theorem C17_cbf_lite_no_fix : forall tm a, spec_cbf a = CLite ->
+  t_cbf_of a = None /\ forall i, spec_timestamp (timing_with_attrs tm a) i == raw_stamp tm i.
+Proof. exact cbf_lite_no_fix. Qed.
+Print Assumptions C17_cbf_lite_no_fix.
+
+Theorem C17_cbf_source_constants :
+  gen_cbf_result = ["int_time"; "n_accs"; "f_engine_stream"; "scale_factor_timestamp"]%string /\
+  gen_cbf_lite_exceptions = ["IndexError"; "KeyError"]%string /\
+  gen_cbf_prog = [CbfStep "correlator_stream" None "src_streams" true;
+                  CbfStep "int_time" (Some "correlator_stream") "_int_time" false;
+                  CbfStep "n_accs" (Some "correlator_stream") "_n_accs" false;
+                  CbfStep "f_engine_stream" (Some "correlator_stream") "_src_streams" true;
+                  CbfStep "f_engine_instrument" (Some "f_engine_stream") "_instrument_dev_name" false;
+                  CbfStep "scale_factor_timestamp" (Some "f_engine_instrument") "_scale_factor_timestamp" false]%string.
+Proof. exact cbf_source_documented. Qed.
+Print Assumptions C17_cbf_source_constants.
+
+(* ---- clause 4: numeric sensor values ---- *)
+(* any per-dump quantity that is a function of the dump timestamp (respecting == of rationals; interpolating any list of
+   sensor samples onto the dump grid is one) has, on the preselected data set, the values it has on dumps a..b of the whole *)
+Theorem C17_preselect_sensor_values : forall (B : Type) (f : Q -> B) (eqB : B -> B -> Prop),
+  (forall x y, x == y -> eqB (f x) (f y)) ->
+  forall tm n a b j d, (a <= b <= n)%nat -> (j < b - a)%nat ->
+  eqB (nth j (map f (timestamps_pre tm a b)) d) (nth j (slice a b (map f (timestamps_full tm n))) d).
+Proof. intros B f eqB. exact (preselect_sensor_values f eqB). Qed.
+Print Assumptions C17_preselect_sensor_values.
+
+(* ---- the slice normalisation used here IS the one of the chunk-store model of C07 (written independently) ---- *)
+Theorem C17_slice_model_is_C07s : forall n a b st,
+  Chunks.norm_slice n (a, b) =
+    (fst (py_indices n (PSlice a b st)), Z.max (fst (py_indices n (PSlice a b st))) (snd (py_indices n (PSlice a b st)))) /\
+  (snd (Chunks.norm_slice n (a, b)) - fst (Chunks.norm_slice n (a, b)))%Z = take_len (py_indices n (PSlice a b st)).
+Proof. exact py_indices_is_c07_norm_slice. Qed.
+Print Assumptions C17_slice_model_is_C07s.
